@@ -736,13 +736,40 @@ func (s *State) step(instr ssa.Instruction) {
 			_ = id
 		}
 		if obj := x.Object(); obj != nil {
-			s.names[obj.Name()] = nameBinding{x.X, x.IsAddr}
+			nb := nameBinding{V: x.X, IsAddr: x.IsAddr, Obj: obj}
+			// a variable that lives in memory (captured by a function literal, or address taken): its name denotes
+			// the cell (its CURRENT content, also after a literal that captured it has written it), not the value
+			// one particular read or assignment produced
+			if !x.IsAddr {
+				if _, isVar := obj.(*types.Var); isVar {
+					if ld, ok := x.X.(*ssa.UnOp); ok && ld.Op == token.MUL {
+						switch a := ld.X.(type) {
+						case *ssa.Alloc:
+							if a.Comment == obj.Name() {
+								nb = nameBinding{V: a, IsAddr: true, Obj: obj}
+							}
+						case *ssa.FreeVar:
+							if a.Name() == obj.Name() {
+								nb = nameBinding{V: a, IsAddr: true, Obj: obj}
+							}
+						}
+					}
+					if cur, ok := s.names[obj.Name()]; ok && cur.IsAddr && cur.Obj == obj {
+						if _, isCell := cur.V.(*ssa.Alloc); isCell {
+							nb = cur
+						} else if _, isFV := cur.V.(*ssa.FreeVar); isFV {
+							nb = cur
+						}
+					}
+				}
+			}
+			s.names[obj.Name()] = nb
 		}
 	case *ssa.Alloc:
 		v := s.allocObj(derefType(x.Type()), x.Type())
 		s.env[x] = v
 		if x.Comment != "" && !strings.ContainsAny(x.Comment, " .()") {
-			s.names[x.Comment] = nameBinding{x, true}
+			s.names[x.Comment] = nameBinding{V: x, IsAddr: true}
 		}
 	case *ssa.FieldAddr:
 		p := s.valOf(x.X)
